@@ -163,7 +163,7 @@ PROPS = {
                         "printable values without surrounding whitespace (the property's quantifier)"],
     },
     "C18": {
-        "proof_files": ["Proofs/DiscoveryFacts.v", "Proofs/ConfigFacts.v", "Proofs/LeaseFacts.v", "Proofs/SortedFacts.v"],
+        "proof_files": ["Proofs/DiscoveryFacts.v", "Proofs/ConfigFacts.v", "Proofs/LeaseFacts.v", "Proofs/SortedFacts.v", "Proofs/MdnsFacts.v"],
         "runs": [{"engine": "discovery", "args": [], "n_quick": 2500, "n_thorough": 200000},
                  {"engine": "mdns", "args": [], "n_quick": 12, "n_thorough": 400, "netns": True}],
         "trivial_tags": [r"/miss$", r"^err$", r"^empty$", r"^n1$"],
